@@ -15,6 +15,10 @@
 //	  unavailable shard exactly once (right link) and as many errors as there are outermost
 //	  unavailable shards.
 //
+//	files without declared sizes (hand-built root without FileSize and block sizes, 2..4 dag-pb
+//	  leaves): every single leaf unavailable; Seek relative to the end, and Seek into a later
+//	  child + ReadAll, must report the store's error (case ids "undeclared:...").
+//
 // Oracle: spans / shard membership / hash paths from vp's protowire walker.
 package c12
 
@@ -104,6 +108,7 @@ func TestBounded(t *testing.T) {
 			fileCase(t, r, fmt.Sprintf("file:W=%d,n=%d", w, n), st, root, want)
 		}
 	}
+	undeclaredSizes(t, r)
 	for _, layout := range []string{"balanced", "trickle"} {
 		for _, n := range []int{3, 8} {
 			want := vp.Content(n*4-1, int64(7000+n))
